@@ -185,6 +185,7 @@ class Interp:
         self.path = None
         self._prefix = []
         self._ndec = 0
+        self._known = {}
         self.depth = 0
         self.sym_loop_limit = 3
         self.inline_filter = None   # optional predicate(name) -> bool: interpret body?
@@ -202,6 +203,7 @@ class Interp:
                 raise PEError('fork budget exceeded (%d paths)' % self.max_paths)
             self._prefix = prefix
             self._ndec = 0
+            self._known = {}
             self.path = Path()
             self.globals = {}
             self.depth = 0
@@ -233,14 +235,24 @@ class Interp:
             if isinstance(cond, float):
                 return cond != 0.0
             return bool(cond)
+        # a condition already decided on this path keeps its outcome (unknowns are immutable symbols)
+        known = self._known
+        if cond in known:
+            return known[cond]
+        if cond.op == '!' and cond.args[0] in known:
+            return not known[cond.args[0]]
+        if cond.op == '!=' and cond.args[1] == 0 and cond.args[0] in known:
+            return known[cond.args[0]]
         i = self._ndec
         self._ndec += 1
         loc = astdb.loc_str(node) if node is not None else '?'
         if i < len(self._prefix):
             t = self._prefix[i]
             self.path.decisions.append((cond, t, loc, False))
+            known[cond] = t
             return t
         self.path.decisions.append((cond, True, loc, True))
+        known[cond] = True
         return True
 
     def event(self, name, args, node=None):
@@ -1099,6 +1111,15 @@ class Interp:
                 last = self.eval(s)
         return last
 
+    def e_AtomicExpr(self, n):
+        name = astdb.atomic_name(n) or '__atomic_?'
+        args = [self.eval(a) for a in kids(n)]
+        h = self.leafs.get('@atomic')
+        if h is not None:
+            return h(self, name, args, n)
+        self.event('atomic:' + name, tuple(_hashable(a) for a in args), n)
+        return Sym('call', (name,) + tuple(_hashable(a) for a in args), qtype(n))
+
     def e_VAArgExpr(self, n):
         return unk('va_arg')
 
@@ -1259,3 +1280,21 @@ def sym_walk(v):
         for a in v:
             for x in sym_walk(a):
                 yield x
+
+
+def strip_casts(v):
+    while is_sym(v) and v.op == 'cast':
+        v = v.args[0]
+    return v
+
+
+def norm_cond(c):
+    """strip boolean wrappers: (x != 0) of a comparison, casts to bool"""
+    while is_sym(c):
+        if c.op == 'cast':
+            c = c.args[0]
+        elif c.op == '!=' and c.args[1] == 0 and is_sym(c.args[0]) and c.args[0].op in ('==', '!=', '<', '>', '<=', '>=', '!'):
+            c = c.args[0]
+        else:
+            break
+    return c
